@@ -20,6 +20,7 @@ from __future__ import annotations
 import ast
 from typing import Dict, List, Optional, Set, Tuple
 
+from ..classify import classify
 from ..model import AnalysisError, ClassInfo, FunctionInfo
 from ..sym import NONE, Term, mentions, show, subterms
 from ..util import (SELF, arg, callee, is_call, method_call, paths, returning, short, where)
@@ -97,37 +98,88 @@ def case_chain(fn: FunctionInfo, var_names: Tuple[str, ...]) -> List[Tuple[str, 
     return max(chains, key=len) if chains else []
 
 
+def node_table(ctx):
+    """interpreted classification table: world label -> meta key -> bool|None (sa/classify)"""
+    if getattr(ctx, '_node_table', None) is not None:
+        return ctx._node_table
+    repo = ctx.repo
+    props = repo.fn('add_single_node_properties')
+    pred_of: Dict[str, str] = {}
+    for n in ast.walk(props.node):
+        if isinstance(n, ast.Assign) and len(n.targets) == 1 and \
+                isinstance(n.targets[0], ast.Subscript) and \
+                isinstance(n.targets[0].slice, ast.Constant) and isinstance(n.value, ast.Call) and \
+                isinstance(n.value.func, ast.Name):
+            pred_of[n.targets[0].slice.value] = n.value.func.id
+    preds = sorted(set(pred_of.values()) | {'is_concatenate'})
+    raw = classify(repo, preds)
+    table = {}
+    for label, res in raw.items():
+        table[label] = {k: res[p] for k, p in pred_of.items()}
+        table[label]['concatenate'] = res['is_concatenate']
+    ctx._node_table = table
+    ctx._pred_of = pred_of
+    return table
+
+
 def r09a(ctx):
     repo = ctx.repo
     shared = repo.fn('is_shared_input_features_op')
     prop = repo.fn('is_features_propagating_op')
     defi = repo.fn('is_features_defining_op')
-    s, p, d = op_sets(shared), op_sets(prop), op_sets(defi)
-    ctx.floor('R09a', 'propagating ops', len(p['functions']) + len(p['modules']), 15)
-    ctx.floor('R09a', 'shared-input ops', len(s['functions']), 3)
-    miss = sorted(s['functions'] - p['functions'])
+    table = node_table(ctx)
+    unknown = [(l, k) for l, r in table.items() for k, v in r.items()
+               if v is None and k != 'zero_or_one_input']
+    if unknown:
+        raise AnalysisError(f'R09a: classification not interpretable for {unknown[:4]}')
+    tok = lambda key: sorted({l for l, r in table.items() if r.get(key)})   # noqa: E731
+    ctx.floor('R09a', 'propagating op worlds', len(tok('features_propagating')), 30)
+    ctx.floor('R09a', 'shared-input op worlds', len(tok('shared_input_features')), 6)
+    miss = [l for l in tok('shared_input_features') if not table[l]['features_propagating']]
     ctx.ob('R09a', 'shared-input functions are propagating', not miss,
-           f'{len(s["functions"])} shared-input functions, all propagating' if not miss else
-           f'{miss} are shared-input ops but not propagating ops: associate_input_features has no '
-           f'case for them and raises on a residual connection built with them',
+           f'{len(tok("shared_input_features"))} shared-input worlds, all propagating' if not miss
+           else f'{miss} are shared-input ops but not propagating ops: associate_input_features '
+           f'has no case for them and raises on a residual connection built with them',
            where(shared))
-    both = sorted(d['modules'] & p['modules'])
-    dp, pp = depthwise_predicates(defi), depthwise_predicates(prop)
-    ok = set(both) <= {'nn.Conv1d', 'nn.Conv2d'} and len(dp) == 1 and len(pp) == 1 and \
-        dp[0][0] == pp[0][0] and dp[0][1] is False and pp[0][1] is True
+    both = [l for l in table if table[l]['features_defining'] and table[l]['features_propagating']]
+    # a class whose classification depends on the depthwise configuration must flip between
+    # defining (standard) and propagating (depthwise): the depthwise layer keeps the width of
+    # its producer, the standard one defines a new width
+    bad_flip = []
+    for l, r in table.items():
+        if not l.endswith('[std]'):
+            continue
+        d = table[l[:-5] + '[dw]']
+        if (r['features_defining'], r['features_propagating']) != \
+                (d['features_defining'], d['features_propagating']):
+            if not (r['features_defining'] and not r['features_propagating'] and
+                    d['features_propagating'] and not d['features_defining']):
+                bad_flip.append(l[:-6])
+    # grouped but not depthwise configurations (groups equal to only one of the two widths)
+    # are ordinary width-defining layers: classified exactly like the standard configuration
+    for l, r in table.items():
+        if l.endswith('[std]'):
+            for tag in ('[g=in]', '[g=out]'):
+                o = table[l[:-5] + tag]
+                if (o['features_defining'], o['features_propagating']) != \
+                        (r['features_defining'], r['features_propagating']):
+                    bad_flip.append(l[:-5] + tag)
+    convs = [l[:-6] for l, r in table.items() if l.endswith('[std]') and r['features_defining']
+             and table[l[:-5] + '[dw]']['features_propagating']]
+    ok = not both and not bad_flip
     ctx.ob('R09a', 'defining / propagating overlap only through the depthwise predicate', ok,
-           f'convolutions are defining unless depthwise ({dp[0][0] if dp else "?"}), in which '
-           f'case they propagate' if ok else
-           f'classes {both} are both defining and propagating; depthwise predicates: defining '
-           f'{dp}, propagating {pp} — a convolution must be classified by one and the same '
-           f'depthwise test in both predicates', where(defi))
+           f'no node is both; {convs} are defining unless depthwise, in which case they propagate'
+           if ok else
+           f'worlds classified as both defining and propagating: {both}; classes whose depthwise '
+           f'configuration is not "defining when standard, propagating when depthwise": '
+           f'{bad_flip}', where(defi))
     # concatenate: features_concatenate implies concatenate
     fc = repo.fn('is_features_concatenate')
-    cc = repo.fn('is_concatenate')
-    okc = op_sets(fc)['functions'] <= op_sets(cc)['functions'] and bool(op_sets(fc)['functions'])
+    cc_bad = [l for l in tok('features_concatenate') if not table[l]['concatenate']]
+    okc = not cc_bad and bool(tok('features_concatenate'))
     ctx.ob('R09a', 'feature concatenation is a concatenation', okc,
-           'is_features_concatenate targets are is_concatenate targets' if okc else
-           'is_features_concatenate recognises ops that is_concatenate does not', where(fc),
+           'is_features_concatenate worlds are is_concatenate worlds' if okc else
+           f'is_features_concatenate recognises {cc_bad} that is_concatenate does not', where(fc),
            nontrivial=False)
     # case chains
     afc = repo.fn('add_features_calculator')
@@ -539,19 +591,8 @@ def r09e(ctx):
     (propagate / flatten / squeeze / shared-input), and True when the calculator is the node's
     own or a concatenation."""
     repo = ctx.repo
-    props = repo.fn('add_single_node_properties')
-    pred_of: Dict[str, FunctionInfo] = {}
-    for n in ast.walk(props.node):
-        if isinstance(n, ast.Assign) and len(n.targets) == 1 and \
-                isinstance(n.targets[0], ast.Subscript) and \
-                isinstance(n.targets[0].slice, ast.Constant) and isinstance(n.value, ast.Call) and \
-                isinstance(n.value.func, ast.Name):
-            try:
-                pred_of[n.targets[0].slice.value] = repo.fn('inspection.' + n.value.func.id)
-            except AnalysisError:
-                pass
-    ctx.floor('R09e', 'node flags with a predicate', len(pred_of), 8)
-    tokens_of = {k: true_tokens(f) for k, f in pred_of.items()}
+    table = node_table(ctx)
+    ctx.floor('R09e', 'node flags with a predicate', len(ctx._pred_of), 8)
     # derivation kind of every branch of the add_features_calculator chain
     afc = repo.fn('add_features_calculator')
     chain_kind: List[Tuple[str, str]] = []
@@ -622,16 +663,7 @@ def r09e(ctx):
     var = next((x.value.value.id for x in ast.walk(cut.test)
                 if isinstance(x, ast.Subscript) and isinstance(x.value, ast.Attribute) and
                 x.value.attr == 'meta' and isinstance(x.value.value, ast.Name)), 'n')
-    all_tokens = set().union(*tokens_of.values())
-    both = tokens_of.get('features_defining', set()) & tokens_of.get('features_propagating', set())
-    worlds = []
-    for o in sorted(all_tokens):
-        flags = {k: o in toks for k, toks in tokens_of.items()}
-        if o in both:       # convolution: defining unless depthwise, then propagating
-            worlds.append((o + ' (standard)', dict(flags, features_propagating=False)))
-            worlds.append((o + ' (depthwise)', dict(flags, features_defining=False)))
-        else:
-            worlds.append((o, flags))
+    worlds = [(label, dict(flags)) for label, flags in sorted(table.items())]
     ctx.floor('R09e', 'op tokens', len(worlds), 30)
     n_ob = 0
     for o, flags in worlds:
@@ -660,6 +692,42 @@ def r09e(ctx):
     ctx.floor('R09e', 'decided op tokens', n_ob, 25)
 
 
+def r09f(ctx, rule='R09f'):
+    """The graph classification and the layer classes agree on what a depthwise layer is: a
+    PIT layer class whose export() has a depthwise branch (it re-creates the layer with
+    groups = its input width and does not slice the input axis, i.e. it relies on sharing the
+    producer's mask) needs the graph passes to classify the depthwise configuration of the
+    torch class it replaces as features-PROPAGATING and not features-defining; otherwise the
+    layer gets a masker of its own and export pairs filters with the wrong input channels."""
+    from .c01 import depthwise_flag, find_export_submodule, layer_kind
+    from ..pitlib import pit_layer_classes
+    repo = ctx.repo
+    table = node_table(ctx)
+    n = 0
+    for ci in pit_layer_classes(repo):
+        exp = ci.methods.get('export')
+        kind = layer_kind(ctx, ci)
+        if exp is None or kind not in ('Conv1d', 'Conv2d'):
+            continue
+        sub = find_export_submodule(ctx, exp, ci)
+        has_dw = any(depthwise_flag(p, sub) is True for p in returning(paths(repo, exp)))
+        if not has_dw:
+            continue
+        n += 1
+        row = table.get(f'nn.{kind} [dw]')
+        ok = row is not None and row['features_propagating'] is True and \
+            row['features_defining'] is False
+        ctx.ob(rule, f'depthwise nn.{kind} is classified as width-propagating', ok,
+               'propagating, not defining: it shares the masker of its producer, as '
+               f'{ci.name}.export assumes' if ok else
+               f'{ci.name}.export has a depthwise branch (groups = in_features_opt, input axis '
+               f'not sliced) but the graph classification of a depthwise nn.{kind} is '
+               f'{ {k: v for k, v in (row or {}).items() if v} }: the layer is given a masker of '
+               f'its own, so its mask can differ from its producer\'s and the exported depthwise '
+               f'layer pairs filters with the wrong input channels', where(exp))
+    ctx.floor(rule, 'layer classes with a depthwise export branch', n, 2)
+
+
 def case_chain_from(node: ast.If) -> List[Tuple[str, str]]:
     out = []
     cur: Optional[ast.If] = node
@@ -676,6 +744,7 @@ def run(ctx):
     r09c(ctx)
     r09d(ctx)
     r09e(ctx)
+    r09f(ctx)
     ctx.assume('torch.cat keeps the order of its inputs; buffers registered under distinct names '
                'are distinct state')
 
